@@ -4,6 +4,7 @@ package compose
 
 import (
 	"fmt"
+	"reflect"
 
 	"github.com/cloudwego/eino/schema"
 )
@@ -49,12 +50,24 @@ func VerifC08ViaAny[T any](sr *schema.StreamReader[T]) *schema.StreamReader[T] {
 		return nil
 	}
 	return schema.StreamReaderWithConvert(asr, func(a any) (T, error) {
-		v, ok := a.(T)
+		v, ok := verifC08Assert[T](a)
 		if !ok {
 			return v, fmt.Errorf("verif c08: chunk of type %T came back from the any path", a)
 		}
 		return v, nil
 	})
+}
+
+// verifC08Assert is a.(T), except that a nil chunk is the nil value of T when T is an interface type
+// (the harness also runs streams whose chunk type is an interface type and holds nil chunks; the
+// plain assertion never holds for nil). Written out here rather than taken from the package, so
+// that the hook does not lean on the code it observes.
+func verifC08Assert[T any](a any) (T, bool) {
+	v, ok := a.(T)
+	if !ok && a == nil && reflect.TypeOf((*T)(nil)).Elem().Kind() == reflect.Interface {
+		return v, true
+	}
+	return v, ok
 }
 
 // verifC08Opaque hides the concrete packer type, so that unpackStreamReader cannot take its
@@ -73,8 +86,9 @@ func VerifC08ViaKey[T any](sr *schema.StreamReader[T], key string) *schema.Strea
 		if len(kv) != 1 {
 			return zero, fmt.Errorf("verif c08: withKey produced a map with %d entries", len(kv))
 		}
-		v, ok := kv[key].(T)
-		if !ok {
+		c, has := kv[key]
+		v, ok := verifC08Assert[T](c)
+		if !has || !ok {
 			return zero, fmt.Errorf("verif c08: withKey(%q) produced %v", key, kv)
 		}
 		return v, nil
